@@ -77,7 +77,7 @@ def check(ctx: Ctx) -> str:
     ctx.check("if len(macro_ref.node.args) == 1:" in s and "arg_tuple += ','" in s, "macro_def:tuple", "compiler:CodeGenerator.macro_def", "one-element tuple", "a single parameter must still be emitted as a tuple", "src/jinja2/compiler.py")
 
     ctx.rule("R3", "defaults are indexed relative to the *declared* parameters: every node.defaults[...] in macro_body uses index <position> - len(node.args)")
-    subs = [n_ for n_ in ast.walk(mb.node) if isinstance(n_, ast.Subscript) and ast.unparse(n_.value) == "node.defaults"]
+    subs = [n_ for n_ in ast.walk(mb.nnode) if isinstance(n_, ast.Subscript) and ast.unparse(n_.value) == "node.defaults"]  # normal form: a local naming len(node.args) is inlined
     ctx.floor("node.defaults subscripts", len(subs), 2)
     for sub in subs:
         lin = astq.linear(sub.slice)
